@@ -1,6 +1,6 @@
 #!/usr/bin/env python3
 """Sensitivity runner: applies each hand-made change of sensitivity/mutants/*.sh to a scratch worktree of /repo,
-checks that it compiles and that the package's own tests still pass, runs the listed quick checks against it
+checks that it compiles and whether the 544 baseline tests still pass (bin/baseline.py), runs the listed quick checks against it
 (VERIF_REPO) and records the verdicts in sensitivity/results.json. Usage: run.py [name-prefix ...]"""
 import json, os, re, subprocess, sys, time, glob
 V = "/verif"
@@ -31,12 +31,10 @@ for sh in sorted(glob.glob(os.path.join(V, "sensitivity", "mutants", "*.sh"))):
         if b.returncode != 0:
             entry["status"] = "does not compile: " + b.stdout[-300:]
             continue
-        pkgs = sorted({"./" + os.path.dirname(f) + "/..." for f in files})
-        t = subprocess.run(["go", "test", "-vet=off", "-count=1"] + pkgs, cwd=wt, env=env, stdout=subprocess.PIPE, stderr=subprocess.STDOUT, text=True)
-        failing = [l for l in t.stdout.splitlines() if l.startswith("--- FAIL") or (l.startswith("FAIL") and "proxy/test" not in l)]
-        entry["existing_tests_pass"] = not failing
-        if failing:
-            entry["existing_tests_failing"] = failing[:5]
+        bl = subprocess.run(["python3", os.path.join(V, "bin", "baseline.py")], env=dict(os.environ, VERIF_REPO=wt), stdout=subprocess.PIPE, stderr=subprocess.STDOUT, text=True)
+        entry["existing_tests_pass"] = bl.returncode == 0
+        if bl.returncode != 0:
+            entry["existing_tests_failing"] = bl.stdout.splitlines()[:6]
         for cid in ids:
             t0 = time.time()
             c = subprocess.run(["python3", os.path.join(V, "bin", "check.py"), cid], cwd=V, env=dict(os.environ, VERIF_REPO=wt), stdout=subprocess.PIPE, stderr=subprocess.STDOUT, text=True)
